@@ -29,10 +29,17 @@ REGISTRATION = {
             "compared structurally (same statement skeleton as the executed ollamarunner loop), not executed.",
 }
 
-MODULES = ["OllamaVerif.Properties.C14", "OllamaVerif.Tie.C14"]
+PROP_MODULES = ["OllamaVerif.Properties.C14"]
+TIE_MODULES = ["OllamaVerif.Tie.C14"]
+MODULES = PROP_MODULES + TIE_MODULES
+TIE_THEOREMS = [
+    "OllamaVerif.Tie.C14.ollama_skeleton_matches",
+    "OllamaVerif.Tie.C14.llama_skeleton_matches",
+]
 THEOREMS = [
     "OllamaVerif.C14.chunks_valid",
     "OllamaVerif.C14.reason_map",
+    "OllamaVerif.C14.cause_spec",
     "OllamaVerif.C14.out_sublist_gen",
     "OllamaVerif.C14.prefix_valid",
     "OllamaVerif.C14.no_split",
@@ -40,6 +47,7 @@ THEOREMS = [
     "OllamaVerif.C14.ends_at_eos_or_limit",
     "OllamaVerif.C14.stop_honoured",
     "OllamaVerif.C14.no_stop_in_output_partial",
+    "OllamaVerif.C14.no_stop_in_output_fixed",
     "OllamaVerif.C14.single_stop",
     "OllamaVerif.C14.F7_first_listed_not_earliest",
     "OllamaVerif.C14.F20_invalid_bytes_dropped",
@@ -48,9 +56,15 @@ THEOREMS = [
     "OllamaVerif.Stop.valid_of_not_incomplete",
     "OllamaVerif.Stop.valid_before_valid",
     "OllamaVerif.Stop.truncateStop_flatten",
-    "OllamaVerif.Tie.C14.ollama_skeleton_matches",
-    "OllamaVerif.Tie.C14.llama_skeleton_matches",
+    "OllamaVerif.Stop.findStopEarliest_spec",
+    "OllamaVerif.Stop.consumed_gen",
 ]
+# Model variant the oracle is asked to run: 1 = FindStop as pinned in /repo (first listed stop, finding F7),
+# 0 = the repaired FindStop of proposed_fixes/C14-F7.patch.  ONE EDIT when the fix is applied to /repo: set to 0
+# (and mark F7 "fixed" in KNOWN_FINDINGS.jsonl).  The environment override exists only to try the patch in a
+# scratch worktree: VERIF_REPO=/tmp/wt VERIF_C14_PINNED=0 ./check C14 quick
+PINNED_FINDSTOP = int(os.environ.get("VERIF_C14_PINNED", "1"))
+
 OV_COMMON = {
     "runner/common/zz_verif_c14_test.go": "runner_common/zz_verif_c14_test.go",
     "runner/common/zz_verif_c14_extract_test.go": "runner_common/zz_verif_c14_extract_test.go",
@@ -81,19 +95,36 @@ def regenerate(ctx):
             "/-- output skeleton of runner/llamarunner/runner.go -/\n"
             "def llama : List String := " + lst(rows["llamarunner"]) + "\n"
             "end OllamaVerif.Generated.C14\n")
+    # what changed w.r.t. the committed skeleton (the one Tie/C14.lean was written against) — for the report only
+    import difflib
+    import subprocess
+    old = subprocess.run(["git", "show", "HEAD:lean/OllamaVerif/Generated/C14_Skeleton.lean"], cwd=core.ROOT,
+                         stdout=subprocess.PIPE, stderr=subprocess.DEVNULL, text=True).stdout
+    diff = [l for l in difflib.unified_diff(old.splitlines(), body.splitlines(), lineterm="", n=0)
+            if l[:1] in "+-" and l[:3] not in ("+++", "---")]
     core.write_generated("OllamaVerif/Generated/C14_Skeleton.lean", body)
     ctx.coverage["skeleton_tokens"] = len(rows["ollamarunner"]) + len(rows["llamarunner"])
+    return diff
 
 
 def run(ctx):
-    regenerate(ctx)
-    ctx.lean_check(MODULES, THEOREMS)
+    skel_diff = regenerate(ctx)
+    # The skeleton tie is built on its own so that a change of either runner's output statements is reported as
+    # exactly that (with the changed statements), and the property theorems are still checked.
+    tie_ok, _ = ctx.lake_build(TIE_MODULES)
+    if tie_ok:
+        ctx.lean_check(MODULES, THEOREMS + TIE_THEOREMS)
+    else:
+        ctx.lean_check(PROP_MODULES, THEOREMS)
+        ctx.obligations += TIE_THEOREMS      # stay undischarged
+        ctx.notes.append("output skeleton of runner/{ollamarunner,llamarunner}/runner.go no longer the one the model was "
+                         "written against; changed statements: " + " | ".join(skel_diff[:12]))
     env_replay = {}
     if ctx.replay:
         env_replay["VERIF_REPLAY"] = ctx.replay_line_file()
 
     # (1) pure functions of runner/common + the UTF-8 decoder
-    env = {"VERIF_N": ctx.scale(3000, 60000), "VERIF_EXH": ctx.scale(4, 5)}
+    env = {"VERIF_N": ctx.scale(3000, 60000), "VERIF_EXH": ctx.scale(4, 5), "VERIF_C14_PINNED": PINNED_FINDSTOP}
     env.update(env_replay)
     rc, out, outdir = ctx.go_test("./runner/common/", OV_COMMON, "^TestVerifC14$", env=env)
     if rc != 0:
@@ -103,7 +134,7 @@ def run(ctx):
     ctx.classify(ctx.l2(outdir))
 
     # (2) the real per-token loop of ollamarunner.Server.processBatch
-    env = {"VERIF_N": ctx.scale(4000, 150000), "VERIF_EXH": ctx.scale(5, 6)}
+    env = {"VERIF_N": ctx.scale(4000, 150000), "VERIF_EXH": ctx.scale(5, 6), "VERIF_C14_PINNED": PINNED_FINDSTOP}
     env.update(env_replay)
     rc, out, outdir = ctx.go_test("./runner/ollamarunner/", OV_OLLAMA, "^TestVerifC14Loop$", env=env, timeout=2400)
     if rc != 0:
